@@ -28,6 +28,7 @@ type verifEnv struct {
 	db    *sql.DB
 	b     *Bucket
 	colls []*Collection
+	U     []string // xattr-name universe (closed world)
 }
 
 func verifCollName(k int) sgbucket.DataStoreNameImpl {
@@ -65,15 +66,19 @@ func invDoc(d verifDoc) bool {
 		verifImplies(d.Value == nil, d.Exp == 0),
 		verifImplies(d.Value == nil, d.IsJSON == 0),
 		d.Rev >= 1,
+		verifXattrsWellFormed(d.Xattrs),
 	)
 }
+
+const verifUniverseSize = 2
 
 // verifWorld: an arbitrary database satisfying the invariant, one bucket
 // handle, nColls collections, the process-wide HLC with an arbitrary clock.
 func verifWorld(inMemory bool, nColls, nDocs int) *verifEnv {
 	hlc = &HybridLogicalClock{clock: verifClock{}, highestTime: verifU64("hlc.highest")}
+	U := verifXattrUniverse(verifUniverseSize)
 	db := verifNewDB("b0", inMemory, nColls, nDocs, 1)
-	env := &verifEnv{db: db, b: verifBucketOn(db, "b0", inMemory)}
+	env := &verifEnv{db: db, b: verifBucketOn(db, "b0", inMemory), U: U}
 	for k := 0; k < nColls; k++ {
 		env.colls = append(env.colls, env.b._initCollection(verifCollName(k), CollectionID(k+1)))
 	}
